@@ -1,7 +1,343 @@
 /- Helper lemmas for C15. -/
 import SigV4.Spec.ValidateSpec
 import SigV4.Spec.UriSpec
+import SigV4.Lemmas.C14
+import SigV4.Lemmas.Query
 
 namespace SigV4
+
+/-! ### The two success shapes of `fromRequestParts` -/
+
+theorem fromRequestParts_unfolded (H : Bytes → Bytes) (opts : Options) (other : OtherCharset)
+    (req : Request) (fp : FromParts) (hf : foldsBody opts req.headers = false)
+    (h : fromRequestParts H opts other req = .ok fp) :
+    fp.rebuiltUri = none ∧ fp.body = req.body := by
+  unfold fromRequestParts at h
+  split at h
+  · cases h
+  · cases h
+  · split at h
+    · cases h
+    · cases h
+    · simp only [hf, Bool.false_eq_true, if_false, Outcome.ok.injEq] at h
+      subst h
+      exact ⟨rfl, rfl⟩
+
+theorem fromRequestParts_folded (H : Bytes → Bytes) (opts : Options) (other : OtherCharset)
+    (req : Request) (fp : FromParts) (hf : foldsBody opts req.headers = true)
+    (h : fromRequestParts H opts other req = .ok fp) :
+    fp.body = [] ∧
+      fp.rebuiltUri = some (if canonQuery fp.creq.params = [] then fp.creq.path
+                            else fp.creq.path ++ [0x3F] ++ canonQuery fp.creq.params) := by
+  unfold fromRequestParts at h
+  split at h
+  · cases h
+  · cases h
+  · split at h
+    · cases h
+    · cases h
+    · simp only [hf, if_true] at h
+      split at h
+      · cases h
+      · cases h
+      · split at h
+        · cases h
+        · cases h
+        · split at h
+          · rename_i hq
+            split at h
+            · cases h
+            · simp only [Outcome.ok.injEq] at h
+              subst h
+              exact ⟨rfl, by simp only [hq, if_true]⟩
+          · rename_i hq
+            split at h
+            · cases h
+            · simp only [Outcome.ok.injEq] at h
+              subst h
+              exact ⟨rfl, by simp only [hq, if_false]⟩
+
+/-! ### Merging URL and body parameters -/
+
+theorem assocGet_assocExtend {β : Type} (m : List (Bytes × List β)) (k k' : Bytes) (vs : List β) :
+    (assocGet (assocExtend m k vs) k').getD [] =
+      if k = k' then (assocGet m k').getD [] ++ vs else (assocGet m k').getD [] := by
+  induction m with
+  | nil =>
+    by_cases h : k = k' <;> simp [assocExtend, assocGet, h]
+  | cons kv rest ih =>
+    obtain ⟨k0, vs0⟩ := kv
+    simp only [assocExtend]
+    by_cases h0 : k0 = k
+    · subst h0
+      by_cases h : k0 = k' <;> simp [assocGet, h]
+    · rw [if_neg h0]
+      by_cases h1 : k0 = k'
+      · subst h1
+        have : ¬ k = k0 := fun e => h0 e.symm
+        simp [assocGet, this]
+      · simp only [assocGet, if_neg h1]
+        exact ih
+
+theorem assocGet_eq_none_of_not_mem {β : Type} (m : List (Bytes × β)) (k : Bytes)
+    (h : k ∉ m.map (·.1)) : assocGet m k = none := by
+  induction m with
+  | nil => rfl
+  | cons kv rest ih =>
+    obtain ⟨k0, v0⟩ := kv
+    simp only [List.map_cons, List.mem_cons, not_or] at h
+    simp only [assocGet]
+    rw [if_neg (fun e => h.1 e.symm)]
+    exact ih h.2
+
+theorem foldl_assocExtend_get (body acc : QueryMap) (k : Bytes) (hb : (body.map (·.1)).Nodup) :
+    (assocGet (body.foldl (fun m kv => assocExtend m kv.1 kv.2) acc) k).getD [] =
+      (assocGet acc k).getD [] ++ (assocGet body k).getD [] := by
+  induction body generalizing acc with
+  | nil => simp [assocGet]
+  | cons kv rest ih =>
+    obtain ⟨k0, vs0⟩ := kv
+    simp only [List.map_cons, List.nodup_cons] at hb
+    simp only [List.foldl_cons]
+    rw [ih _ hb.2, assocGet_assocExtend]
+    by_cases h : k0 = k
+    · subst h
+      simp [assocGet, assocGet_eq_none_of_not_mem rest k0 hb.1]
+    · simp [assocGet, h]
+
+/-! ### The output alphabet of the element normaliser -/
+
+set_option maxRecDepth 100000 in
+theorem hexDigitUpper_unreserved_aux : ∀ n : Fin 256,
+    isUnreserved (hexDigitUpper ((UInt8.ofNat n.val) >>> (4 : UInt8))) = true ∧
+    isUnreserved (hexDigitUpper ((UInt8.ofNat n.val) &&& (0xF : UInt8))) = true := by
+  decide
+
+theorem hexDigitUpper_unreserved (c : UInt8) :
+    isUnreserved (hexDigitUpper (c >>> (4 : UInt8))) = true ∧
+    isUnreserved (hexDigitUpper (c &&& (0xF : UInt8))) = true := by
+  have := hexDigitUpper_unreserved_aux ⟨c.toNat, c.toNat_lt⟩
+  simpa using this
+
+/-- A byte the normaliser may emit: unreserved, or the escape character. -/
+def okByte (c : UInt8) : Prop := isUnreserved c = true ∨ c = 0x25
+
+theorem pctEncode_okByte (v : UInt8) : ∀ c ∈ pctEncode v, okByte c := by
+  intro c hc
+  simp only [pctEncode, List.mem_cons, List.not_mem_nil, or_false] at hc
+  rcases hc with rfl | rfl | rfl
+  · exact .inr rfl
+  · exact .inl (hexDigitUpper_unreserved v).1
+  · exact .inl (hexDigitUpper_unreserved v).2
+
+theorem Outcome.map_eq_ok {α β : Type} {f : α → β} {x : Outcome α} {r : β}
+    (h : Outcome.map f x = .ok r) : ∃ y, x = .ok y ∧ r = f y := by
+  cases x with
+  | ok y => simp only [Outcome.map_ok, Outcome.ok.injEq] at h; exact ⟨y, rfl, h.symm⟩
+  | err k => cases h
+  | panic p => cases h
+
+theorem normElemRaw_alphabet (isPath : Bool) (s : Bytes) :
+    ∀ r, normElemRaw isPath s = .ok r → ∀ c ∈ r, okByte c := by
+  fun_induction normElemRaw isPath s with
+  | case1 => intro r h; cases h; intro c hc; cases hc
+  | case2 c rest hu ih =>
+    intro r h
+    obtain ⟨y, hy, rfl⟩ := Outcome.map_eq_ok h
+    intro d hd
+    rcases List.mem_cons.1 hd with rfl | hd
+    · exact .inl hu
+    · exact ih y hy d hd
+  | case3 h1 h2 rest' a b hb ha v hv hu ih =>
+    intro r h
+    obtain ⟨y, hy, rfl⟩ := Outcome.map_eq_ok h
+    intro d hd
+    rcases List.mem_cons.1 hd with rfl | hd
+    · exact .inl hv
+    · exact ih y hy d hd
+  | case4 h1 h2 rest' a b hb ha v hv hu ih =>
+    intro r h
+    obtain ⟨y, hy, rfl⟩ := Outcome.map_eq_ok h
+    intro d hd
+    rcases List.mem_append.1 hd with hd | hd
+    · exact pctEncode_okByte v d hd
+    · exact ih y hy d hd
+  | case5 => intro r h; cases h
+  | case6 => intro r h; cases h
+  | case7 rest hu hc ih =>
+    intro r h
+    obtain ⟨y, hy, rfl⟩ := Outcome.map_eq_ok h
+    intro d hd
+    rcases List.mem_append.1 hd with hd | hd
+    · simp only [List.mem_cons, List.not_mem_nil, or_false] at hd
+      rcases hd with rfl | rfl | rfl
+      · exact .inr rfl
+      · exact .inl (by decide)
+      · exact .inl (by decide)
+    · exact ih y hy d hd
+  | case8 c rest hu hc hp ih =>
+    intro r h
+    obtain ⟨y, hy, rfl⟩ := Outcome.map_eq_ok h
+    intro d hd
+    rcases List.mem_append.1 hd with hd | hd
+    · exact pctEncode_okByte c d hd
+    · exact ih y hy d hd
+
+/-- A fixed point of the normaliser is written in the output alphabet: it has no `&` and no `=`. -/
+theorem normElem_fixed_clean (isPath : Bool) (x : Bytes) (h : normElem isPath x = .ok x) :
+    (0x26 : UInt8) ∉ x ∧ (0x3D : UInt8) ∉ x := by
+  have hraw : normElemRaw isPath x = .ok x := by
+    unfold normElem at h
+    split at h
+    · rename_i r hr
+      split at h
+      · cases h; exact hr
+      · cases h
+    · cases h
+    · cases h
+  have := normElemRaw_alphabet isPath x x hraw
+  constructor
+  · intro hm
+    rcases this _ hm with h' | h'
+    · revert h'; decide
+    · revert h'; decide
+  · intro hm
+    rcases this _ hm with h' | h'
+    · revert h'; decide
+    · revert h'; decide
+
+/-! ### Splitting a join -/
+
+theorem splitOn_append_sep (sep : UInt8) (x rest : Bytes) (hx : sep ∉ x) :
+    splitOn sep (x ++ sep :: rest) = x :: splitOn sep rest := by
+  induction x with
+  | nil => simp [splitOn]
+  | cons c cs ih =>
+    simp only [List.mem_cons, not_or] at hx
+    have hc : ¬ c = sep := fun e => hx.1 e.symm
+    simp only [List.cons_append, splitOn, if_neg hc, ih hx.2]
+
+theorem splitOn_no_sep (sep : UInt8) (x : Bytes) (hx : sep ∉ x) : splitOn sep x = [x] := by
+  induction x with
+  | nil => rfl
+  | cons c cs ih =>
+    simp only [List.mem_cons, not_or] at hx
+    have hc : ¬ c = sep := fun e => hx.1 e.symm
+    simp only [splitOn, if_neg hc, ih hx.2]
+
+theorem splitOn_joinWith (sep : UInt8) (L : List Bytes) (hne : L ≠ []) (hL : ∀ x ∈ L, sep ∉ x) :
+    splitOn sep (joinWith [sep] L) = L := by
+  induction L with
+  | nil => exact absurd rfl hne
+  | cons x rest ih =>
+    cases rest with
+    | nil => exact splitOn_no_sep sep x (hL x (List.mem_cons_self ..))
+    | cons y rest' =>
+      have hx := hL x (List.mem_cons_self ..)
+      have hrest : ∀ z ∈ y :: rest', sep ∉ z := fun z hz => hL z (List.mem_cons_of_mem _ hz)
+      have : joinWith [sep] (x :: y :: rest') = x ++ sep :: joinWith [sep] (y :: rest') := by
+        simp [joinWith]
+      rw [this, splitOn_append_sep sep x _ hx, ih (by simp) hrest]
+
+theorem splitFirst_append_sep (sep : UInt8) (k v : Bytes) (hk : sep ∉ k) :
+    splitFirst sep (k ++ sep :: v) = (k, some v) := by
+  induction k with
+  | nil => simp [splitFirst]
+  | cons c cs ih =>
+    simp only [List.mem_cons, not_or] at hk
+    have hc : ¬ c = sep := fun e => hk.1 e.symm
+    simp only [List.cons_append, splitFirst, if_neg hc, ih hk.2]
+
+theorem joinWith_eq_nil (sep : Bytes) (L : List Bytes) (hL : ∀ x ∈ L, x ≠ [])
+    (h : joinWith sep L = []) : L = [] := by
+  cases L with
+  | nil => rfl
+  | cons x rest =>
+    exfalso
+    have hx := hL x (List.mem_cons_self ..)
+    cases rest with
+    | nil => exact hx h
+    | cons y rest' =>
+      simp only [joinWith, List.append_eq_nil_iff] at h
+      exact hx h.1.1
+
+/-! ### Re-parsing a rendered pair list -/
+
+/-- A (name, value) pair whose two halves are fixed points of the query element normaliser. -/
+def normalPair (kv : Bytes × Bytes) : Prop :=
+  normElem false kv.1 = .ok kv.1 ∧ normElem false kv.2 = .ok kv.2
+
+theorem renderPair_ne_nil (kv : Bytes × Bytes) : renderPair kv ≠ [] := by
+  simp [renderPair]
+
+theorem renderPair_no_amp (kv : Bytes × Bytes) (h : normalPair kv) : (0x26 : UInt8) ∉ renderPair kv := by
+  have h1 := (normElem_fixed_clean false kv.1 h.1).1
+  have h2 := (normElem_fixed_clean false kv.2 h.2).1
+  simp only [renderPair, List.mem_append, List.mem_cons, List.not_mem_nil, or_false, not_or]
+  exact ⟨⟨h1, by decide⟩, h2⟩
+
+theorem queryLoop_render (L : List (Bytes × Bytes)) (m0 : QueryMap) (hL : ∀ kv ∈ L, normalPair kv) :
+    queryLoop (L.map renderPair) m0 = .ok (L.foldl (fun m kv => assocPush m kv.1 kv.2) m0) := by
+  induction L generalizing m0 with
+  | nil => rfl
+  | cons kv rest ih =>
+    have hkv := hL kv (List.mem_cons_self ..)
+    have hrest : ∀ x ∈ rest, normalPair x := fun x hx => hL x (List.mem_cons_of_mem _ hx)
+    have hsplit : splitFirst 0x3D (renderPair kv) = (kv.1, some kv.2) := by
+      have := splitFirst_append_sep 0x3D kv.1 kv.2 (normElem_fixed_clean false kv.1 hkv.1).2
+      simpa [renderPair] using this
+    simp only [List.map_cons, List.foldl_cons]
+    unfold queryLoop
+    rw [if_neg (renderPair_ne_nil kv)]
+    simp only [hsplit, Option.getD_some, hkv.1, hkv.2]
+    exact ih _ hrest
+
+/-- The round trip on a sorted, signature-free list of normal pairs. -/
+theorem roundtrip_sorted (Q : List (Bytes × Bytes)) (hQ : ∀ kv ∈ Q, normalPair kv)
+    (hsig : ∀ kv ∈ Q, kv.1 ≠ X_AMZ_SIGNATURE) :
+    (parseQuery (joinWith [0x26] ((sortBy pairLe Q).map renderPair))).map canonQuery
+      = .ok (joinWith [0x26] ((sortBy pairLe Q).map renderPair)) := by
+  have hperm := sortBy_perm pairLe Q
+  have hL : ∀ kv ∈ sortBy pairLe Q, normalPair kv := fun kv h => hQ kv (hperm.mem_iff.1 h)
+  have hLsig : ∀ kv ∈ sortBy pairLe Q, kv.1 ≠ X_AMZ_SIGNATURE :=
+    fun kv h => hsig kv (hperm.mem_iff.1 h)
+  generalize hLdef : sortBy pairLe Q = L at hL hLsig
+  unfold parseQuery
+  by_cases hnil : joinWith [0x26] (L.map renderPair) = []
+  · rw [if_pos hnil, hnil]
+    rfl
+  · rw [if_neg hnil]
+    have hne : L.map renderPair ≠ [] := by
+      intro e; rw [e] at hnil; exact hnil rfl
+    have hamp : ∀ x ∈ L.map renderPair, (0x26 : UInt8) ∉ x := by
+      intro x hx
+      obtain ⟨kv, hkv, rfl⟩ := List.mem_map.1 hx
+      exact renderPair_no_amp kv (hL kv hkv)
+    rw [splitOn_joinWith 0x26 _ hne hamp, queryLoop_render L [] hL]
+    simp only [Outcome.map_ok, Outcome.ok.injEq]
+    show canonQuery (groupPairs L) = _
+    unfold canonQuery
+    rw [queryPairs_eq_filter]
+    congr 2
+    have h1 : ((flattenMap (groupPairs L)).filter fun kv => kv.1 ≠ X_AMZ_SIGNATURE).Perm
+        (L.filter fun kv => kv.1 ≠ X_AMZ_SIGNATURE) := (groupPairs_perm' L).filter _
+    have h2 : (L.filter fun kv => kv.1 ≠ X_AMZ_SIGNATURE) = L :=
+      List.filter_eq_self.2 fun kv hkv => by simpa using hLsig kv hkv
+    rw [h2] at h1
+    rw [sortBy_pairLe_eq_of_perm h1, ← hLdef]
+    exact sortBy_pairLe_eq_of_perm hperm
+
+theorem queryPairs_normal (m : QueryMap)
+    (hm : ∀ kv ∈ m, ∀ v ∈ kv.2, normElem false kv.1 = .ok kv.1 ∧ normElem false v = .ok v) :
+    (∀ kv ∈ queryPairs m, normalPair kv) ∧ (∀ kv ∈ queryPairs m, kv.1 ≠ X_AMZ_SIGNATURE) := by
+  constructor
+  · intro kv hkv
+    simp only [queryPairs, List.mem_flatMap, List.mem_filter, List.mem_map] at hkv
+    obtain ⟨e, ⟨he, _⟩, v, hv, rfl⟩ := hkv
+    exact hm e he v hv
+  · intro kv hkv
+    simp only [queryPairs, List.mem_flatMap, List.mem_filter, List.mem_map] at hkv
+    obtain ⟨e, ⟨_, hs⟩, v, _, rfl⟩ := hkv
+    simpa using hs
 
 end SigV4
